@@ -1569,7 +1569,15 @@ def run_property(pid, prop, tier, seed, scratch, replay=None):
         cases = [dict(id=c.get("id", "replay"), ptr=c.get("ptr", 4), schedule=c.get("schedule") or [],
                       files=c.get("files", {}), exp=None)]
     else:
-        cases = load_corpus(prop.get("corpus", ["common"])) + gen_cases(pid, prop, n, seed)
+        generated = gen_cases(pid, prop, n, seed)
+        cases = load_corpus(prop.get("corpus", ["common"])) + generated
+        # hurried-author variants of a third of the generated inputs (one or two small edits each): nothing is known
+        # about what they should mean, so no monitor applies -- model and implementation must still agree on them
+        mrng = random.Random(seed * 31 + 7)
+        for c in generated[:max(1, n // 3)]:
+            mf, what = gen.semantic_mutation(mrng, c["files"])
+            if what != "unchanged":
+                cases.append(dict(id=c["id"] + "-mut", ptr=c["ptr"], schedule=[], files=mf, exp=None, mutant=what))
     out = dict(evaluations=len(cases), failures=[], breaks=[], samples=[], notes=[])
     seen = set()
     nontrivial = 0
@@ -1585,6 +1593,8 @@ def run_property(pid, prop, tier, seed, scratch, replay=None):
         if first_verdict is None:
             first_verdict = r.hv[0]
         dist["impl_" + r.hv[0]] += 1
+        if r.case.get("mutant"):
+            dist["hurried_author_variant:" + r.hv[0]] += 1
         if r.case.get("exp") and r.case["exp"].get("miss"):
             dist["near_miss:" + r.case["exp"]["miss"]] += 1
         if r.m is None:
